@@ -65,6 +65,8 @@ def observe(dc, raw, start):
 
 def check_one(dc, st, raw, r, maxaff):
     st.inc('evaluations')
+    if len(raw) > 48:
+        maxaff = 1          # the long ladder inputs: one-byte prefixes and suffixes (the cost is per byte of input)
     base = observe(dc, raw, 0)
     srcline = dc.src.replace('\n', '; ')
     syms = dc.syms
